@@ -1237,6 +1237,31 @@ def schema_contracts(specs):
                                 n.func.attr in ('clear', 'pop', 'remove', 'insert', 'reverse', 'sort', '__delitem__',
                                                 '__setitem__'):
                             bad.append('%s: %s' % (fname_, ast.unparse(n)))
+        # "evaluated exactly once per reach": a module-level constant of a MUTABLE type is shared by all
+        # reaches, renders and threads; it may only serve as the read-only static attribute dictionary
+        # (`__attrs_*`) or as the right operand of a membership test
+        shared = []
+        mut = {nm for nm, node in em.statics.items()
+               if isinstance(node, (ast.List, ast.Dict, ast.Set, ast.ListComp, ast.DictComp, ast.SetComp))}
+        if mut:
+            for fname_, fdef in em.functions.items():
+                par = {}
+                for n in ast.walk(fdef):
+                    for ch in ast.iter_child_nodes(n):
+                        par[ch] = n
+                for n in ast.walk(fdef):
+                    if isinstance(n, ast.Name) and n.id in mut and isinstance(n.ctx, ast.Load):
+                        p_ = par.get(n)
+                        ok_ = (isinstance(p_, ast.Assign) and all(isinstance(t, ast.Name) and t.id.startswith('__attrs_')
+                                                                  for t in p_.targets)) or \
+                              (isinstance(p_, ast.Compare) and n in p_.comparators and
+                               all(isinstance(o, (ast.In, ast.NotIn)) for o in p_.ops))
+                        if not ok_:
+                            shared.append('%s: %s' % (fname_, ast.unparse(p_) if p_ is not None else n.id))
+        static.append(('%s.no_shared_mutable_constants' % s['id'], not shared,
+                       'no list / dict / set built once per compiled module is handed to an expression or a '
+                       'variable (each reach of a literal display builds a new object)',
+                       {'template': s['text'], 'uses': shared}))
         static.append(('%s.handler.stream_frame' % s['id'], not bad,
                        'the exception handler of every emitted render function leaves the output stream '
                        'as it is (modifies nothing of __stream)', {'template': s['text'], 'statements': bad}))
